@@ -428,7 +428,8 @@ func c17HistoryCheck(order []int, fwd bool) (out [][2]string) {
 	mk := func(name string) ref.Iface {
 		return ref.Iface{Scalars: ref.Table{"name": name, "advertise": true},
 			Prefix: []ref.Table{{}, {"prefix": "2001:db8:d::/64", "deprecated": true, "valid_lifetime": "2h", "preferred_lifetime": "1h"}},
-			Route:  []ref.Table{{}}, RDNSS: []ref.Table{{}}}
+			Route:  []ref.Table{{}, {"prefix": "2001:db8:ffff::/48"}}, RDNSS: []ref.Table{{}, {"servers": []string{"2001:db8::53"}, "lifetime": "1h"}},
+			DNSSL:  []ref.Table{{"domain_names": []string{"lan.example.com"}}}}
 	}
 	doc := ref.Doc{Ifaces: []ref.Iface{mk("eth0"), mk("eth2"), {Scalars: ref.Table{"name": "eth1", "monitor": true}}}}
 	cfg, err := config.Parse(strings.NewReader(doc.TOML()), c17Epoch)
@@ -493,13 +494,29 @@ func c17HistoryCheck(order []int, fwd bool) (out [][2]string) {
 	}
 	step("again")
 	step("and again")
+	// Both advertising interfaces have the same configuration and see the same addresses
+	// and routes: once both are prepared, what one scrape reports for eth2 is what it
+	// reports for eth0 (same options, same labels, same values).
+	if got, err, pv := scrape(mm); err == nil && pv == nil {
+		per := map[string][]string{}
+		for _, e := range got {
+			for _, name := range []string{"eth0", "eth2"} {
+				if strings.Contains(e, "{"+name+",") || strings.Contains(e, "{"+name+"}") {
+					per[name] = append(per[name], strings.Replace(e, "{"+name, "{ethX", 1))
+				}
+			}
+		}
+		if fmt.Sprint(per["eth0"]) != fmt.Sprint(per["eth2"]) || len(per["eth0"]) < 8 {
+			bad("C17:history:interfaces-differ", "identically configured interfaces, one scrape: eth0 has\n  %v\neth2 has\n  %v", per["eth0"], per["eth2"])
+		}
+	}
 	return out
 }
 
 func TestVerifC17(t *testing.T) {
 	r := ev.Begin("C17", "enum")
 	defer r.End(t)
-	r.Rule = "cases = configurations (no stanza; each of 17 stanza variants alone: static/wildcard/deprecated prefix and route, static/wildcard RDNSS, DNSSL, MTU, no source LLA, captive portal, PREF64, non-default header; all together; all minus each) x lifecycle {plugins never prepared, prepared through the real Prepare with the NewAddresser seam} x State reads {ok, failing (some error, ENOENT, EACCES)} x forwarding {on,off} x debug.prometheus x debug.pprof; for each: one metrics scrape (constScrape and Memory.Series) and GET /_/api/interfaces, /metrics, /debug/pprof/ on the real crhttp.Handler, under recover; oracle: no panic ever; prepared + readable state => every sample and the JSON equal the reference RA (every option kind rendered); /metrics and /debug/pprof/ are 200 iff enabled, 404 otherwise; plus scrape histories over two advertising interfaces prepared one after the other (scrape after every step): no duplicate sample, and every scrape equals the scrape of a fresh Metrics (history must not matter); non-trivial = configuration has a stanza; distinct = distinct case"
+	r.Rule = "cases = configurations (no stanza; each of 17 stanza variants alone: static/wildcard/deprecated prefix and route, static/wildcard RDNSS, DNSSL, MTU, no source LLA, captive portal, PREF64, non-default header; all together; all minus each) x lifecycle {plugins never prepared, prepared through the real Prepare with the NewAddresser seam} x State reads {ok, failing (some error, ENOENT, EACCES)} x forwarding {on,off} x debug.prometheus x debug.pprof; for each: one metrics scrape (constScrape and Memory.Series) and GET /_/api/interfaces, /metrics, /debug/pprof/ on the real crhttp.Handler, under recover; oracle: no panic ever; prepared + readable state => every sample and the JSON equal the reference RA (every option kind rendered); /metrics and /debug/pprof/ are 200 iff enabled, 404 otherwise; plus scrape histories over two advertising interfaces prepared one after the other (scrape after every step): no duplicate sample, every scrape equals the scrape of a fresh Metrics (history must not matter), and the two identically configured interfaces (wildcard and static prefix, route, RDNSS; DNSSL) have identical samples in one scrape; non-trivial = configuration has a stanza; distinct = distinct case"
 	if r.Replay != nil {
 		var c c17Case
 		if err := json.Unmarshal(r.Replay, &c); err != nil {
